@@ -212,6 +212,34 @@ def mia_core(u, tdtype, B, e0, wd):
         return (lo.entered, lm.entered, li.entered), []
     return core.explore(body)
 
+def partitioned_core2(u, S, W, K, tdtype, precision):
+    """vectorised kernel 2 with the number of traces SYMBOLIC (samples, words, classes concrete): the matrix products over the trace axis go through the sum
+    normaliser; accumulator' == accumulator + sum_i [D(i,w) = c] * X(i,s)^p for p = 0, 1, 2 (indicator times sample)"""
+    fnc = L.unwrap(u.part.PartitionedDistinguisherMixin.__dict__['_accumulate_core_2'])
+    isf = _rnp.dtype(tdtype).kind == 'f'
+    def body():
+        core.NARROW_FLOWS.clear(); sums.install()
+        n = core.sym_int('n', 1)
+        X = H.sym_reals('X', (n, S), tdtype) if isf else H.sym_ints('X', (n, S), tdtype)
+        DF = z3.Function('D', z3.IntSort(), z3.IntSort(), z3.IntSort())
+        D = symnp.ndarray.fresh((n, W), lambda i: SBV(z3.Int2BV(DF(zi(i[0]), zi(i[1])), 32), 'int32', DF(zi(i[0]), zi(i[1]))), 'int32', name='D')
+        sm = moment_tensor('SUM', (S, W, K), precision); sq = moment_tensor('SQ', (S, W, K), precision); cn = moment_tensor('CNT', (W, K), precision)
+        old = (sm.snapshot(), sq.snapshot(), cn.snapshot())
+        fnc(X, D, sm, sq, cn, symnp.dtype(precision))
+        from props.dist_common import batch_sum
+        ind = lambda i, w, c: z3.If(DF(zi(i), z3.IntVal(w)) == c, z3.RealVal(1), z3.RealVal(0))
+        xr = lambda i, s: real_of(X.at(i, s))
+        for s_ in range(S):
+            for w in range(W):
+                for c in range(K):
+                    loops.oblige('kernel 2, symbolic number of traces: sum[%d,%d,%d]\' == sum + batch moment' % (s_, w, c), 'post', real_of(sm.at(s_, w, c)) == real_of(old[0]((s_, w, c))) + batch_sum(lambda i: SFloat(ind(i, w, c) * xr(i, s_)), n))
+                    loops.oblige('kernel 2, symbolic number of traces: sum_square[%d,%d,%d]\' == sum_square + batch moment' % (s_, w, c), 'post', real_of(sq.at(s_, w, c)) == real_of(old[1]((s_, w, c))) + batch_sum(lambda i: SFloat(ind(i, w, c) * xr(i, s_) * xr(i, s_)), n))
+        for w in range(W):
+            for c in range(K):
+                loops.oblige('kernel 2, symbolic number of traces: counters[%d,%d]\' == counters + number of traces of the class' % (w, c), 'post', real_of(cn.at(w, c)) == real_of(old[2]((w, c))) + batch_sum(lambda i: SFloat(ind(i, w, c)), n))
+        return (), list(core.NARROW_FLOWS)
+    return core.explore(body)
+
 def ttest_core(u, tdtype, precision):
     mod = u.ld.load(TT); fnc = L.unwrap(mod.TTestThreadAccumulator.__dict__['_update_core']); key = TT + '::TTestThreadAccumulator._update_core'
     isf = _rnp.dtype(tdtype).kind == 'f'
@@ -237,7 +265,7 @@ def ttest_core(u, tdtype, precision):
         return (lo.entered,), list(core.NARROW_FLOWS)
     return core.explore(body)
 
-def report(rep, paths, label, function, timeout, expect_entered, native=None, case=None):
+def report(rep, paths, label, function, timeout, expect_entered, native=None, case=None, sat_is_undecided=False):
     n = 0
     for p, outc, exc in paths:
         if exc is not None:
@@ -248,6 +276,8 @@ def report(rep, paths, label, function, timeout, expect_entered, native=None, ca
         for ob in p.obligations:
             res = solve.discharge(ob['pc'], ob['goal'], timeout_ms=timeout)
             nm = '%s [%s]' % (ob['name'], label)
+            if res['result'] == 'sat' and sat_is_undecided:      # sums compared through uninterpreted prefix-sum functions: a difference of normal forms is not a counterexample
+                res = dict(res, result='unknown', note='the abstract sums differ (the units with concrete extents decide whether that is a real difference)')
             rep.obligation(nm, function, ob['kind'], res, sample='generic index, every extent symbolic'); n += 1
             if res['result'] == 'sat':
                 rep.violation(nm, function, ob['name'], case, str(res['model'])[:600], *(native(case) if native else (None, None)))
